@@ -95,15 +95,19 @@ func sepReMenu() []re {
 	return []re{cat(a, plus(b)), plus(cls('a', 'b')), alt(a, cat(a, b)), plus(eacute), cat(b, opt(a)), cat(dot, b)}
 }
 
-var units = [][]byte{{'a'}, {'b'}, {0xC3, 0xA9}, {0xFF}}
+var units = [][]byte{{'a'}, {'b'}, {0xC3, 0xA9}, {0xFF}, {' '}}
 
 func randSubject(r *rand.Rand, maxUnits int, ascii bool) []byte {
 	n := r.Intn(maxUnits + 1)
 	var out []byte
 	for i := 0; i < n; i++ {
-		k := len(units)
+		k := len(units) - 1
 		if ascii {
 			k = 2
+		}
+		if r.Intn(12) == 0 {
+			out = append(out, ' ') // a blank now and then, for split on " "
+			continue
 		}
 		// favour a and b so that patterns match often
 		if r.Intn(3) == 0 {
@@ -193,6 +197,10 @@ func genCall(r *rand.Rand, regs, seps []re, matched, ascii bool) recCall {
 			return recCall{map[string]any{"op": "split", "sep": map[string]any{"k": "re", "r": rx}, "text": hx.FromBytes([]byte(txt))},
 				"n = split(t, A, " + reSrc([]byte(txt), r.Intn(2) == 0) + `); r = n ""`}
 		}
+		if r.Intn(5) == 0 {
+			return recCall{map[string]any{"op": "split", "sep": map[string]any{"k": "space"}, "text": hx.FromBytes([]byte(" "))},
+				`n = split(t, A, " "); r = n ""`}
+		}
 		c := [][]byte{{'a'}, {'b'}, {0xC3, 0xA9}, {0xFF}, {'.'}, {'x'}}[r.Intn(6)]
 		return recCall{map[string]any{"op": "split", "sep": map[string]any{"k": "char", "c": hx.FromBytes(c)}, "text": hx.FromBytes(c)},
 			"n = split(t, A, " + hx.AwkString(c) + `); r = n ""`}
@@ -204,7 +212,7 @@ func genCall(r *rand.Rand, regs, seps []re, matched, ascii bool) recCall {
 		return recCall{map[string]any{"op": op, "r": rx, "text": hx.FromBytes([]byte(txt)), "repl": hx.FromBytes(rp)},
 			"r = " + op + "(" + reSrc([]byte(txt), r.Intn(2) == 0) + ", " + hx.AwkString(rp) + `, t) ""`}
 	case k < 94:
-		return recCall{map[string]any{"op": "length"}, `r = length(t) ""`}
+		return recCall{map[string]any{"op": "length"}, lengthStmt}
 	}
 	x := randNum(r, false, false)
 	for x.K == "inf" {
